@@ -53,6 +53,7 @@ type Ctx struct {
 	bceDone bool
 	skipGenerated bool
 	genFiles map[string]bool
+	exprAt   map[token.Pos]string
 }
 
 type anchorMissing struct{ what string }
